@@ -77,32 +77,52 @@ def record_cli_case(cid, T, sys_, seed, origin='cli'):
             'res': 'ok', 'file': {'used': 'F', 'pos': 'F', 'words': [], 'trans': [], 'nlines': 0}}
     try:
         src = os.path.join(tmp, 'in.export')
-        with open(src, 'w', encoding='utf-8') as f:
+        # some words are not ASCII; source and destination encodings are chosen independently
+        import copy
+        T = copy.deepcopy(T)
+        exo = [u'\u00dcberma\u00df', u'na\u00efve', u'\u00e9', u'10\u00a0000', u'\u65e5\u672c']
+        for x in T['nodes']:
+            if x['tok'] and rnd.random() < 0.4:
+                x['a']['word'] = rnd.choice(exo)
+        allw = ''.join(x['a']['word'] for x in T['nodes'] if x['tok'])
+        encs = ['utf-8', 'utf-8', 'utf-16']
+        try:
+            allw.encode('latin-1')
+            encs += ['latin-1', 'latin-1']
+        except UnicodeEncodeError:
+            pass
+        src_enc, dest_enc = rnd.choice(encs), rnd.choice(encs)
+        case['encs'] = '%s->%s' % (src_enc, dest_enc)
+        with open(src, 'w', encoding=src_enc) as f:
             f.write(fam_io.render_export(T, 7, False, rnd))
-        tree = next(mods['treeinput'].export(src, 'utf-8', quiet=True))
+        tree = next(mods['treeinput'].export(src, src_enc, quiet=True))
         tf = mods['transform']
         top = seed % 3 == 0
         with contextlib.redirect_stderr(io.StringIO()), contextlib.redirect_stdout(io.StringIO()):
             tree = tf.binarize(tf.negra_mark_heads(tree))
             if top:
                 tree = tf.add_topnode(tree)      # returns the NEW root: the caller has to go on with it
-            case['tree'] = treeio.Dumper(treeio.Atoms(seed)).dump(tree)
+            at = treeio.Atoms(seed)
+            case['tree'] = treeio.Dumper(at).dump(tree)
             sent, seq = getattr(mods['transitions'], sys_)(tree)
         case['raw'] = [str(t) for t in seq]
         case['seq'] = [split_name(x) for x in case['raw']]
-        case['sent'] = [[w, t] for (w, t) in sent]
+        case['sent'] = [[at.abst(w), t] for (w, t) in sent]
         pos = rnd.random() < 0.5
         args = [core.VENV_PY, os.path.join(core.REPO, 'treetools'), 'transitions', src, os.path.join(tmp, 'out.tr'), sys_,
                 '--transform', 'negra_mark_heads', 'binarize'] + (['add_topnode'] if top else []) \
-            + (['--dest-opts', 'pos'] if pos else [])
+            + (['--dest-opts', 'pos'] if pos else []) + ['--src-enc', src_enc, '--dest-enc', dest_enc]
         p = subprocess.run(args, cwd=tmp, stdout=subprocess.PIPE, stderr=subprocess.PIPE)
         lines = []
         if os.path.exists(os.path.join(tmp, 'out.tr')):
-            lines = open(os.path.join(tmp, 'out.tr'), encoding='utf-8').read().split('\n')
+            try:
+                lines = open(os.path.join(tmp, 'out.tr'), encoding=dest_enc).read().split('\n')
+            except UnicodeError:
+                lines = ['<undecodable> ||| <undecodable>']
             if lines and lines[-1] == '':
                 lines = lines[:-1]
         left, _, right = (lines[0] if lines else '').partition(' ||| ')
-        case['file'] = {'used': 'T', 'pos': 'T' if pos else 'F', 'words': left.split(' ') if left else [],
+        case['file'] = {'used': 'T', 'pos': 'T' if pos else 'F', 'words': [at.abst(w_) for w_ in left.split(' ')] if left else [],
                         'trans': right.split(' ') if right else [], 'nlines': len(lines) if p.returncode == 0 else -1}
     except Exception as ex:
         case['res'] = 'exc'
